@@ -11,16 +11,20 @@
 //        SHORT1             write 1 byte, and fail every later write to the same fd with ENOSPC
 //        SHORTM             write len-1 bytes (later calls succeed)
 //        CRASH              _exit(137) immediately before the call (what SIGKILL leaves behind)
+//        SIGINT|SIGTERM|SIGHUP|SIGUSR1|SIGQUIT|SIGPIPE   the signal is raised immediately before the call; if the
+//                           process survives (a handler, an ignored signal) the call goes on undisturbed
 //  FAULTFS_RPREFIX=<prefix> read() calls on files whose path starts with <prefix> are numbered 0,1,2,... on their own
 //                           (logged as "R <k> read <path> <count> <result>")
 //  FAULTFS_RPLAN=k:ACT[,..] the environment's answer at read call k:  SHORT1 (at most 1 byte) | SHORTH (at most half) |
-//                           EINTR (fail once with EINTR, nothing consumed) | EIO (fail, nothing consumed)
+//                           EINTR (fail once with EINTR, nothing consumed) | EIO (fail, nothing consumed) |
+//                           SIGINT / SIGTERM / SIGHUP / SIGUSR1 (the signal is raised immediately before the read)
 //  FAULTFS_TRACE=<prefix>   additionally log open/close/read/lseek on files whose path starts with <prefix> (not numbered)
 #define _GNU_SOURCE
 #include <dirent.h>
 #include <dlfcn.h>
 #include <errno.h>
 #include <fcntl.h>
+#include <signal.h>
 #include <stdarg.h>
 #include <stdint.h>
 #include <stdio.h>
@@ -45,7 +49,7 @@ static long rcounter = 0;
 static long rplan_k[MAXRPLAN];
 static int rplan_act[MAXRPLAN];
 static int rplan_n = 0;
-enum { R_NONE = 0, R_SHORT1, R_SHORTH, R_EINTR, R_EIO };
+enum { R_NONE = 0, R_SHORT1, R_SHORTH, R_EINTR, R_EIO, R_SIGINT, R_SIGTERM, R_SIGHUP, R_SIGUSR1 };
 static int detrand = 0;
 static uint64_t detseed = 0;
 
@@ -54,7 +58,7 @@ static long plan_k[MAXPLAN];
 static int plan_act[MAXPLAN];
 static int plan_err[MAXPLAN]; // errno of an A_EIO entry named by another errno (EPIPE, EDQUOT, ...); 0 = EIO
 static int plan_n = 0;
-enum { A_NONE = 0, A_ENOSPC, A_EIO, A_EINTR, A_SHORT1, A_SHORTM, A_CRASH };
+enum { A_NONE = 0, A_ENOSPC, A_EIO, A_EINTR, A_SHORT1, A_SHORTM, A_CRASH, A_SIG };
 #define MAXFD 4096
 static char fd_dead[MAXFD]; // fds whose later writes fail with ENOSPC (after SHORT1)
 
@@ -116,6 +120,10 @@ __attribute__((constructor)) static void init(void) {
             plan_err[plan_n] = 0;
             static const struct { const char *n; int e; } errs[] = {{"EPIPE", EPIPE}, {"EDQUOT", EDQUOT}, {"EFBIG", EFBIG}, {"EAGAIN", EAGAIN}, {"EROFS", EROFS}, {"EBADF", EBADF}, {"ENOMEM", ENOMEM}, {"EACCES", EACCES}, {"ETIMEDOUT", ETIMEDOUT}, {"ESTALE", ESTALE}};
             for (unsigned e = 0; e < sizeof errs / sizeof errs[0]; e++) if (!strcmp(a, errs[e].n)) plan_err[plan_n] = errs[e].e;
+            static const struct { const char *n; int s; } sigs[] = {{"SIGINT", SIGINT}, {"SIGTERM", SIGTERM}, {"SIGHUP", SIGHUP}, {"SIGUSR1", SIGUSR1}, {"SIGQUIT", SIGQUIT}, {"SIGPIPE", SIGPIPE}};
+            int is_sig = 0;
+            for (unsigned e = 0; e < sizeof sigs / sizeof sigs[0]; e++) if (!strcmp(a, sigs[e].n)) { plan_err[plan_n] = sigs[e].s; is_sig = 1; }
+            if (is_sig) { plan_act[plan_n] = A_SIG; plan_n++; continue; }
             plan_act[plan_n] = plan_err[plan_n] ? A_EIO : !strcmp(a, "ENOSPC") ? A_ENOSPC : !strcmp(a, "EIO") ? A_EIO : !strcmp(a, "EINTR") ? A_EINTR
                              : !strcmp(a, "SHORT1") ? A_SHORT1 : !strcmp(a, "SHORTM") ? A_SHORTM : !strcmp(a, "CRASH") ? A_CRASH : A_NONE;
             plan_n++;
@@ -133,7 +141,8 @@ __attribute__((constructor)) static void init(void) {
             *colon = 0;
             rplan_k[rplan_n] = atol(tok);
             const char *a = colon + 1;
-            rplan_act[rplan_n] = !strcmp(a, "SHORT1") ? R_SHORT1 : !strcmp(a, "SHORTH") ? R_SHORTH : !strcmp(a, "EINTR") ? R_EINTR : !strcmp(a, "EIO") ? R_EIO : R_NONE;
+            rplan_act[rplan_n] = !strcmp(a, "SHORT1") ? R_SHORT1 : !strcmp(a, "SHORTH") ? R_SHORTH : !strcmp(a, "EINTR") ? R_EINTR : !strcmp(a, "EIO") ? R_EIO
+                                 : !strcmp(a, "SIGINT") ? R_SIGINT : !strcmp(a, "SIGTERM") ? R_SIGTERM : !strcmp(a, "SIGHUP") ? R_SIGHUP : !strcmp(a, "SIGUSR1") ? R_SIGUSR1 : R_NONE;
             rplan_n++;
         }
         free(copy);
@@ -180,6 +189,13 @@ static int intercept(const char *op, const char *path, long len, long *kout) {
     if (act == A_CRASH) {
         logline("%ld %s %s %ld CRASH\n", k, op, path, len);
         _exit(137);
+    }
+    if (act == A_SIG) {
+        // a signal arrives immediately before this call (k:SIGINT / SIGTERM / SIGHUP / SIGUSR1 / SIGQUIT / SIGPIPE); whatever the
+        // program's disposition is decides what happens; if it survives, the call goes on undisturbed
+        logline("%ld %s %s %ld SIGNAL=%d\n", k, op, path, len, cur_eio);
+        raise(cur_eio);
+        return A_NONE;
     }
     return act;
 }
@@ -378,6 +394,32 @@ ssize_t read(int fd, void *buf, size_t count) {
             for (int i = 0; i < rplan_n; i++)
                 if (rplan_k[i] == k) act = rplan_act[i];
             ssize_t r;
+            {
+                // FAULTFS_RHOOK=k:<shell command>: another process changes the data directory while the run is in the middle of
+                // its blocks - the command runs to completion immediately before read #k (outside this shim)
+                static long hook_k = -2;
+                static const char *hook_cmd = NULL;
+                if (hook_k == -2) {
+                    hook_k = -1;
+                    const char *h = getenv("FAULTFS_RHOOK");
+                    if (h && *h) { const char *c = strchr(h, ':'); if (c) { hook_k = atol(h); hook_cmd = c + 1; } }
+                }
+                if (hook_cmd && hook_k == k) {
+                    char *pre = getenv("LD_PRELOAD");
+                    char *saved = pre ? strdup(pre) : NULL;
+                    unsetenv("LD_PRELOAD");
+                    int rc = system(hook_cmd);
+                    if (saved) { setenv("LD_PRELOAD", saved, 1); free(saved); }
+                    logline("R %ld hook rc=%d\n", k, rc);
+                }
+            }
+            if (act >= R_SIGINT) {
+                // a signal arrives while the run is in the middle of its blocks, immediately before this read
+                int sg = act == R_SIGINT ? SIGINT : act == R_SIGTERM ? SIGTERM : act == R_SIGHUP ? SIGHUP : SIGUSR1;
+                logline("R %ld read %s %ld SIGNAL=%d\n", k, path, (long)count, sg);
+                raise(sg);
+                act = R_NONE;
+            }
             if (act == R_EINTR || act == R_EIO) {
                 errno = act == R_EINTR ? EINTR : EIO;
                 r = -1;
